@@ -101,14 +101,9 @@ func normaliseArmor(text string) string {
 	// whitespace after the END line
 	if i := strings.LastIndex(text, refage.ArmorFooter); i >= 0 {
 		tail := text[i+len(refage.ArmorFooter):]
-		if strings.TrimSpace(tail) == "" && (tail == "" || tail[0] == '\n' || tail[0] == '\r') {
-			// keep the line end of the END line itself out of the "trailing" part
+		if strings.TrimSpace(tail) == "" {
+			// whitespace after the footer line (including a bare CR or a missing newline)
 			text = text[:i+len(refage.ArmorFooter)] + "\n"
-			if strings.HasPrefix(tail, "\r\n") || strings.HasPrefix(tail, "\n") || tail == "" {
-				// fine
-			} else {
-				text = text[:len(text)-1] + tail // a stray CR: leave it so comparison fails
-			}
 		}
 	}
 	return strings.ReplaceAll(text, "\r\n", "\n")
